@@ -806,8 +806,10 @@ Definition count_occ_z (l : list Z) (x : Z) : nat := List.length (filter (Z.eqb 
 (* F20: somebody paid twice *)
 Definition class_F20 (c : c13_case) : bool :=
   let ws := map fst (accepted_payments c) in existsb (fun w => Nat.ltb 1 (count_occ_z ws w)) ws.
-(* F21: the dispute failed for lack of funding *)
-Definition class_F21 (c : c13_case) : bool := existsb (fun o => d_status (o_d o) =? Failed) (obs_of c).
+(* F21: the dispute failed for lack of funding (and is still failed at the end of the history: a dispute that was marked
+   failed and later went to the vote is not of this class) *)
+Definition class_F21 (c : c13_case) : bool :=
+  match c with Hist _ _ _ init steps => d_status (o_d (last_obs init steps)) =? Failed end.
 (* F22: more than one round *)
 Definition class_F22 (c : c13_case) : bool := existsb (fun o => 1 <? d_id (o_d o)) (obs_of c).
 (* F23: two different payers paid from stake *)
